@@ -192,6 +192,54 @@ func (g *gen) leaf3() *node {
 			}
 		}
 		return &node{d3: true, tok: "sph 3 " + fpt(lo) + " " + num(r), s3: s, pts: pts}
+	case k == 6:
+		// RectSet.Solid(): the real split tree, serialised through the verif hook
+		rs := toolbox3d.NewRectSet()
+		for i := 0; i < 1+g.c.Rng.Intn(5); i++ {
+			a, b := g.boxLoHi(true)
+			for j := range b {
+				if b[j] <= a[j] {
+					b[j] = a[j] + 1
+				}
+			}
+			rs.Add(model3d.NewRect(c3(a), c3(b)))
+		}
+		if g.c.Rng.Intn(3) == 0 {
+			a, b := g.boxLoHi(true)
+			for j := range b {
+				if b[j] <= a[j] {
+					b[j] = a[j] + 1
+				}
+			}
+			rs.Remove(model3d.NewRect(c3(a), c3(b)))
+		}
+		s := rs.Solid()
+		tree := toolbox3d.VerifRectSetSolidTree(s, num)
+		g.c.Stat("leaf_rectSetTree", 1)
+		mn, mx := p3(s.Min()), p3(s.Max())
+		pts := boxPts(mn, mx, true, g.inward())
+		for _, r := range toolbox3d.VerifRectSetRects(rs) {
+			pts = append(pts, boxPts(p3(r.MinVal), p3(r.MaxVal), true, g.inward())...)
+		}
+		return &node{d3: true, tok: "rset " + tree, s3: s, pts: g.sub(pts, 30)}
+	case k == 7 && !g.exact:
+		// heightMapSolid: InBounds && HigherAt; HigherAt is the recorded callback
+		mn := model2d.XY(g.num(3), g.num(3))
+		hm := toolbox3d.NewHeightMap(mn, mn.Add(model2d.XY(0.5+g.c.Rng.Float64()*3, 0.5+g.c.Rng.Float64()*3)), 8+g.c.Rng.Intn(16))
+		for i := 0; i < 1+g.c.Rng.Intn(3); i++ {
+			hm.AddSphere(mn.Add(model2d.XY(g.c.Rng.Float64()*3, g.c.Rng.Float64()*3)), 0.2+g.c.Rng.Float64()*1.5)
+		}
+		var s model3d.Solid
+		if g.c.Rng.Intn(2) == 0 {
+			s = toolbox3d.HeightMapToSolid(hm)
+		} else {
+			s = toolbox3d.HeightMapToSolidBidir(hm)
+		}
+		id := g.id()
+		lo, hi := p3(s.Min()), p3(s.Max())
+		g.c.Stat("leaf_heightMapModelled", 1)
+		return &node{d3: true, tok: fmt.Sprintf("hm %s %s %s %s %d", fpt(pt{lo[0], lo[1], 0}), fpt(pt{hi[0], hi[1], 0}), num(lo[2]), num(hi[2]), id),
+			s3: &hmLeaf{s: s, hm: hm, id: id, rec: g.rec}, pts: boxPts(lo, hi, true, g.inward())}
 	default:
 		name, s := g.opaque3()
 		g.c.Stat("leaf_orc3_"+name, 1)
@@ -239,6 +287,22 @@ func (g *gen) opaque3() (string, model3d.Solid) {
 		"rectSet", "heightMap", "lineJoin", "radialCurve", "triangularLine", "ramp"}
 	name := names[g.c.Rng.Intn(len(names))]
 	return name, makeOpaque3(g.c, name)
+}
+
+// hmLeaf is the real height map solid; it records the underlying callback HigherAt(c.XY(), |c.Z|)
+// (independently of the bounds test) for the model's `hm` node.
+type hmLeaf struct {
+	s   model3d.Solid
+	hm  *toolbox3d.HeightMap
+	id  int
+	rec *recorder
+}
+
+func (h *hmLeaf) Min() model3d.Coord3D { return h.s.Min() }
+func (h *hmLeaf) Max() model3d.Coord3D { return h.s.Max() }
+func (h *hmLeaf) Contains(c model3d.Coord3D) bool {
+	h.rec.add("b", h.id, p3(c), 0, f01(h.hm.HigherAt(c.XY(), math.Abs(c.Z))))
+	return h.s.Contains(c)
 }
 
 // ---------------------------------------------------------------- 2D leaves
